@@ -52,6 +52,9 @@ func (s testSvc[T]) Calc(buf *bytes.Buffer) T {
 	for _, c := range buf.Bytes() {
 		h = (h*131 + uint32(c) + 1) & 0x7fffffff
 	}
+	if h&7 == 0 {
+		h = 0
+	}
 	return s.conv(h)
 }
 
@@ -274,9 +277,9 @@ func BuildGo(p *dsl.Program, files map[string][]byte, dir string, withTests bool
 	if withTests {
 		r := cli.Run(dir, buildTimeout, nil, env, "go", "test", "-c", "-vet=off", "-o", filepath.Join(dir, "emitted.test"), "./"+pkg)
 		if r.TimedOut {
-		panic("harness: toolchain timed out (machine overloaded?)")
-	}
-	if r.Exit != 0 {
+			panic("harness: toolchain timed out (machine overloaded?)")
+		}
+		if r.Exit != 0 {
 			return nil, &BuildError{"go", "emitted-tests", string(r.Stderr) + string(r.Stdout)}
 		}
 	}
